@@ -9,7 +9,7 @@ TRUST = ("rustc/cargo, the Linux process/rusage interfaces, Python's json; the r
          "likely to be wrong: it is validated against seeded breaks, see DESIGN.md appendix B)")
 
 CHECKS = {
-    "C01": ("process-boundary monitor + library worker under catch_unwind, generated hostile inputs (bounded-exhaustive token soups, mutations, truncations, cycles, scaling families); AddressSanitizer builds of worker and binary; thorough: libFuzzer + ASan exploration with artifacts re-judged by the uninstrumented binary",
+    "C01": ("process-boundary monitor + library worker under catch_unwind, generated hostile inputs (bounded-exhaustive token soups, mutations, truncations, cycles, scaling families); AddressSanitizer builds (with overflow checks and debug assertions) of worker and binary; thorough: libFuzzer + ASan exploration with artifacts re-judged by the uninstrumented binary",
             "exploration", "4/C01",
             "No crash/abort/stack overflow/hang observed on the executed inputs; exit status, signal, stderr and CPU time (rusage) of the real binary and of an isolated library worker are the observation points. Universality is approximated by bounded-exhaustive token sequences plus families aimed at each recursion, each unwrap and each point where a syntax error can interrupt the construction of the AST; memory errors in the pointer-based AST are observed by AddressSanitizer."),
     "C02": ("model-generated programs + position-recording printer vs. AST dump (field-by-field), layout metamorphic relation",
@@ -36,16 +36,16 @@ CHECKS = {
     "C09": ("printer-recorded token positions vs. spans of every AST symbol and diagnostic; reference renderer for human snippets",
             "exploration", "4/C09",
             "Spans of every symbol reachable from the files and of diagnostics are compared with the positions recorded while printing the program under hostile layouts."),
-    "C10": ("exhaustive/boundary value sweeps through the real encoder/decoder vs. bit-level reference encoder; Miri + ASan runs",
+    "C10": ("exhaustive/boundary value sweeps through the real encoder/decoder vs. bit-level reference encoder; Miri (Stacked Borrows; thorough also Tree Borrows + symbolic alignment) + ASan/overflow-check runs",
             "exploration", "4/C10",
             "Round trip, exact consumption and byte-for-byte wire format on exhaustive small domains and boundary neighbourhoods, plus sanitizer runs of the same workload."),
-    "C11": ("exhaustive short byte strings + mutations + lying size prefixes under catch_unwind with per-decode RSS/CPU monitor; strict reference decoder; Miri + ASan; thorough: the same differential oracle inside a libFuzzer target",
+    "C11": ("exhaustive short byte strings + mutations + lying size prefixes under catch_unwind with per-decode RSS/CPU monitor; strict reference decoder, incl. user-defined (zero-sized / oversized) var-int targets; Miri (thorough: both aliasing models) + ASan with overflow checks; thorough: the same differential oracle inside a libFuzzer target",
             "exploration", "4/C11",
             "Every decodable type is fed every byte string up to length 2 (thorough: 3), mutated valid encodings and lying prefixes; results are compared with a strict reference decoder and cost is measured per decode."),
-    "C12": ("bounded-exhaustive operation histories in lock-step with a reference append-only log; canary-padded buffers; Miri + ASan",
+    "C12": ("bounded-exhaustive operation histories in lock-step with a reference append-only log; canary-padded buffers; Miri (thorough: both aliasing models) + ASan with overflow checks",
             "exploration", "4/C12",
             "History + executable model: after every operation contents, position, remaining and reservation ranges are compared with the reference."),
-    "C13": ("template product lint x placement x argument and random programs with injected lints and scattered suppressions vs. reference suppression rule; metamorphic with/without pairs",
+    "C13": ("template product lint x placement x argument and random programs with injected lints and scattered suppressions vs. reference suppression rule; metamorphic with/without pairs; witnesses for lints of members of unfinished definitions",
             "exploration", "4/C13",
             "Levels of every seeded lint are compared with the reference rule; adding a suppression must change nothing else."),
     "C14": ("emitter output (JSON lines / human blocks / totals / escape bytes) vs. the diagnostics returned by the library",
